@@ -175,7 +175,10 @@ def s2_s3_update(ctx):
             continue
         if not is_open:
             closed_paths += 1
-            bad = [w for w in heap_writes(p) if loc_attr(w.loc) not in ('current_dt', 'current_price')]
+            # what the clause protects: the pending orders, and everything a fill changes (cash, holdings, history).  Re-marking prices, the clock, the broker's own
+            # book-keeping (what it remembers about which assets are held) and the removal of a position that is already flat are not fills.
+            fill_state = {'open_orders', 'cash', 'cash_balances', 'history', 'buy_quantity', 'sell_quantity', 'avg_bought', 'avg_sold', 'buy_commission', 'sell_commission', 'net_quantity'}
+            bad = [w for w in heap_writes(p) if loc_attr(w.loc) in fill_state or (loc_attr(w.loc) in ('positions', '_positions') and w.how != 'del')]
             calls = [e for e in p.flat_events() if e.kind == 'call' and any(c in ('SimulatedBroker._execute_order', 'Portfolio.transact_asset') for c in e.callee)]
             ctx.require(not bad and not calls and not gets, 'C04.S2', 'outside exchange hours the update leaves every pending order untouched and fills nothing',
                         (bad[0].site if bad else (calls[0].site if calls else fn.site())), [str(x) for x in (bad + calls)][:3], key='C04.S2|closed')
